@@ -31,7 +31,7 @@ PROPS = {
         "floors": {"__nontrivial__": 0.25, "entitlement_shrunk": 0.30, "shrink_and_regain": 0.10, "child_unsuspended": 0.03},
         "assumptions": W_ASSUME + ["request limits (RequestResourceLimit) are exercised by C12's signed-message generator, not here"],
         "technique": "property-based testing of operation histories; oracles: decoded published certificates vs entitlement model (exactness), "
-        "containment check after every publication (never over-claims), metamorphic idempotence (two extra sync rounds change nothing with the clock frozen)",
+        "containment check after every publication (never over-claims), issuing judged when it happens (after every operation and task: a newly issued certificate exceeds its predecessor only within the entitlement), metamorphic idempotence (two extra sync rounds change nothing with the clock frozen)",
         "level_text": "Exploration by generated histories. After every SyncRepo of an issuer the published child certificates are compared with the certificate the issuer holds; "
         "at every checkpoint (after a bounded number of sync rounds) each child certificate must equal entitlement ∩ issuer resources, no requests may be open, and two further "
         "sync rounds must leave command histories and repository bytes unchanged. Sampling, not proof; appropriate because the property quantifies over histories.",
